@@ -864,6 +864,8 @@ class Emitter:
                 if not t.fields:
                     body = ''
                 out.append('struct %s%s { %s };' % ('__attribute__((packed)) ' if t.packed else '', self.sname(t), body))
+                if not t.name:
+                    out.append('#define IR2C_HAVE_%s 1' % self.sname(t))
             elif t.k == 'arr':
                 dep(t.elem)
                 out.append('struct %s { %s a[%d]; };' % (self.sname(t), self.ct(t.elem), t.n))
@@ -1131,7 +1133,9 @@ class Emitter:
             cop = {'eq': '==', 'ne': '!=', 'ult': '<', 'ule': '<=', 'ugt': '>', 'uge': '>=', 'slt': '<', 'sle': '<=',
                    'sgt': '>', 'sge': '>='}[pred]
             if pred in ('eq', 'ne'):
-                return '((void*)%s %s (void*)%s)' % (a, cop, b)
+                if b.startswith('((') and b.endswith(')0)'):
+                    return '((void*)%s %s (void*)0)' % (a, cop)
+                return '(%sIR2C_PTREQ(%s, %s))' % ('' if pred == 'eq' else '!', a, b)
             return 'IR2C_PTRCMP(%s, %s, %s)' % (a, cop, b)
         if pred in ('eq', 'ne'):
             return '(%s %s %s)' % (a, '==' if pred == 'eq' else '!=', b)
